@@ -1,4 +1,4 @@
-import Lt.Conc
+import RedisGoModel.Conc.Conc
 /-! Instantiating the generic atomicity theorem with tree-shaped programs (`Exec`), and the first corollary in the
     property's own words: concurrent INCRs lose no increment. Core Lean only. -/
 namespace Cc
